@@ -6,7 +6,10 @@ import (
 	"sort"
 	"strings"
 
+	"golang.org/x/tools/go/callgraph/cha"
+	"golang.org/x/tools/go/callgraph/vta"
 	"golang.org/x/tools/go/ssa"
+	"golang.org/x/tools/go/ssa/ssautil"
 
 	"manticheck/internal/load"
 )
@@ -21,7 +24,9 @@ type World struct {
 	direct  map[*ssa.Function]map[string]bool
 	methods map[string][]*ssa.Function // method name → module methods
 	fi      map[*ssa.Function]*FuncInfo
+	invoke  map[ssa.CallInstruction][]*ssa.Function
 	cells   map[*ssa.Alloc]cellState
+	nonNeg  map[string]int
 	Axioms  []func(c *Ctx, in ssa.Instruction)
 	// Contracts
 	Requires map[string]string // function name → textual contract (evidence)
@@ -32,6 +37,16 @@ func NewWorld(p *load.Program) *World {
 		direct: map[*ssa.Function]map[string]bool{}, methods: map[string][]*ssa.Function{}, fi: map[*ssa.Function]*FuncInfo{},
 		Requires: map[string]string{}}
 	w.Funcs = p.SrcFuncs()
+	// VTA call graph: used to resolve interface invokes precisely
+	cg := vta.CallGraph(ssautil.AllFunctions(p.SSA), cha.CallGraph(p.SSA))
+	w.invoke = map[ssa.CallInstruction][]*ssa.Function{}
+	for _, n := range cg.Nodes {
+		for _, e := range n.Out {
+			if e.Site != nil && e.Site.Common().IsInvoke() {
+				w.invoke[e.Site] = append(w.invoke[e.Site], e.Callee.Func)
+			}
+		}
+	}
 	for _, fn := range w.Funcs {
 		if fn.Signature.Recv() != nil {
 			w.methods[fn.Name()] = append(w.methods[fn.Name()], fn)
@@ -92,13 +107,15 @@ func (w *World) CalleesOf(c ssa.CallInstruction) []*ssa.Function {
 	cc := c.Common()
 	if cc.IsInvoke() {
 		var out []*ssa.Function
-		for _, m := range w.methods[cc.Method.Name()] {
-			// receiver type must implement the interface
-			recv := m.Signature.Recv().Type()
-			if types.Implements(recv, cc.Value.Type().Underlying().(*types.Interface)) ||
-				types.Implements(types.NewPointer(recv), cc.Value.Type().Underlying().(*types.Interface)) {
-				out = append(out, m)
+		for _, f := range w.invoke[c] {
+			if f.Synthetic != "" {
+				if o, ok := f.Object().(*types.Func); ok {
+					if d := w.P.SSA.FuncValue(o); d != nil && d.Blocks != nil {
+						f = d
+					}
+				}
 			}
+			out = append(out, f)
 		}
 		return out
 	}
